@@ -1,6 +1,9 @@
 // exec.h -- how a plan is executed for a given property: directly (most), three times under
 // different fresh-memory fill patterns (C20), or on real threads under the seeded scheduler (C19).
 #pragma once
+#include <utility>
+#include <vector>
+
 #include "plan.h"
 #include "world.h"
 
@@ -11,4 +14,6 @@ RunResult execForProp(const Plan& plan);
 RunResult execMemoryDifferential(const Plan& plan);  // mem.cpp
 RunResult execThreads(const Plan& plan);             // threads.cpp
 const char* variantName();
+// C19: the switch sequence (yield index, next thread) of the last scheduled run in this process
+const std::vector<std::pair<uint64_t, int>>& lastSwitchLog();
 }  // namespace sim
